@@ -9,12 +9,17 @@ from __future__ import annotations
 
 import concurrent.futures as cf
 import json
+import random
 import signal
 import time
 
 from harness import kit, ser
 
-TIMEOUT_S = 3.0
+# Limits are in *CPU seconds of the worker process* (ITIMER_VIRTUAL), so that a loaded
+# machine cannot turn a slow call into a "timeout": normal calls need well under 2 s of CPU
+# (the largest symbolic FFT of the thorough tier), a call that exceeds the limit is looping.
+CPU_LIMIT_S = 20.0
+CPU_LIMIT_LOOPY_S = 0.5      # extended_euclidean on polynomials (microseconds when it returns)
 
 
 class _Timeout(BaseException):
@@ -25,12 +30,12 @@ def _alarm(_sig, _frm):
     raise _Timeout()
 
 
-def _timed(thunk):
-    """Run thunk() under a wall-clock limit.  ("ok", value) | ("err", class name) |
+def _timed(thunk, limit=None):
+    """Run thunk() under a CPU-time limit.  ("ok", value) | ("err", class name) |
     ("timeout", "")"""
     import warnings
-    old = signal.signal(signal.SIGALRM, _alarm)
-    signal.setitimer(signal.ITIMER_REAL, TIMEOUT_S)
+    old = signal.signal(signal.SIGVTALRM, _alarm)
+    signal.setitimer(signal.ITIMER_VIRTUAL, limit or CPU_LIMIT_S)
     try:
         with warnings.catch_warnings():
             warnings.simplefilter("ignore")
@@ -42,8 +47,8 @@ def _timed(thunk):
     except Exception as exc:  # noqa: BLE001 - the exception class *is* the observation
         return "err", type(exc).__name__
     finally:
-        signal.setitimer(signal.ITIMER_REAL, 0)
-        signal.signal(signal.SIGALRM, old)
+        signal.setitimer(signal.ITIMER_VIRTUAL, 0)
+        signal.signal(signal.SIGVTALRM, old)
 
 
 def _vals(thunk, k):
@@ -290,7 +295,7 @@ def _drive_poly(c):
 def _drive_peuclid(c):
     from pymbolic.algorithm import extended_euclidean
     P, Q = _mkpoly(c["P"]), _mkpoly(c["Q"])
-    st, r = _timed(lambda: extended_euclidean(P, Q))
+    st, r = _timed(lambda: extended_euclidean(P, Q), CPU_LIMIT_LOOPY_S)
     if st != "ok":
         return {"r": st, "e": r, "res": []}
     if not isinstance(r, tuple) or len(r) != 3:
@@ -430,33 +435,34 @@ ALGO_CONTROLS = {
 
 
 def _model_runs(out):
-    """S-layer model (must be clean) and its negative controls (each must violate the
-    named invariant)."""
-    def one(bug):
-        if bug is None:
-            return None, kit.run_tlc("C19_Algo", "C19_Algo", workers=4, heap="2g", tag="C19_Algo.none")
-        return bug, kit.run_tlc("C19_Algo", f"C19_Algo_{bug}", workers=2, heap="1g",
-                                tag=f"C19_Algo.{bug}")
+    """S-layer model (must be clean) and its negative controls: one TLC run with -continue
+    in which every Ctl_<bug> invariant must be reported violated."""
+    with cf.ThreadPoolExecutor(max_workers=2) as ex:
+        f_model = ex.submit(kit.run_tlc, "C19_Algo", "C19_Algo", workers=4, heap="2g", tag="C19_Algo.none")
+        f_ctl = ex.submit(kit.run_tlc, "C19_Algo", "C19_Algo_controls", workers=2, heap="1g",
+                          tag="C19_Algo.controls", continue_=True)
+        model, ctl = f_model.result(), f_ctl.result()
+    kit.require_clean(model, "C19_Algo (loop invariants of integer_power / extended_euclidean, "
+                             "Cooley-Tukey = DFT)")
+    out.add_tlc(model)
+    violated = set(ctl.invariant_violated)
     controls = {}
-    with cf.ThreadPoolExecutor(max_workers=4) as ex:
-        for bug, res in ex.map(one, [None, *ALGO_CONTROLS]):
-            if bug is None:
-                kit.require_clean(res, "C19_Algo (loop invariants of integer_power / extended_euclidean, "
-                                       "Cooley-Tukey = DFT)")
-                out.add_tlc(res)
-            else:
-                want = ALGO_CONTROLS[bug]
-                if want not in res.invariant_violated:
-                    raise kit.MachineryError(
-                        f"negative control Bug={bug} did not violate {want}: "
-                        + "\n".join(res.out.splitlines()[-15:]))
-                controls[bug] = want
+    for bug, inv in ALGO_CONTROLS.items():
+        if f"Ctl_{bug}" not in violated:
+            raise kit.MachineryError(
+                f"negative control bug={bug} did not violate {inv} (Ctl_{bug}): "
+                + "\n".join(ctl.out.splitlines()[-15:]))
+        controls[bug] = inv
+    if violated - {f"Ctl_{b}" for b in ALGO_CONTROLS}:
+        raise kit.MachineryError(f"unexpected invariant violated in the control run: {sorted(violated)}")
     return controls
 
 
-def _judge(recs, wd, name="c19"):
-    # the FFT records are long (2n integers), keep shards moderate
-    shards = kit.write_shards(recs, wd / "trace", name, 6000)
+def _judge(recs, wd, name="c19", quick=True):
+    # the FFT records are long (2n integers), keep shards moderate; the quick tier uses four
+    # JVMs in all (the machine-wide number of TLC slots is limited)
+    size = max(2000, -(-len(recs) // 4)) if quick else 12000
+    shards = kit.write_shards(recs, wd / "trace", name, size)
     return kit.judge_shards("C19_Judge", "C19_Judge", shards, heap="2g")
 
 
@@ -483,7 +489,8 @@ def _corrupt(rec):
     return None, None
 
 
-def _corruption_control(recs, wd):
+def _corrupted_records(recs, first_id):
+    """One corrupted copy per part (ids from first_id on) with the clause that must reject it."""
     picked, seen = [], set()
     for r in recs:
         if r["part"] in seen:
@@ -491,11 +498,12 @@ def _corruption_control(recs, wd):
         bad, clause = _corrupt(r)
         if bad is not None:
             seen.add(r["part"])
-            bad["id"] = len(picked)
+            bad["id"] = first_id + len(picked)
             picked.append((bad, clause))
-    if not picked:          # (a tree so broken that nothing usable was recorded: nothing to corrupt)
-        return {}
-    verdicts, _, _ = _judge([b for b, _ in picked], wd, "c19corrupt")
+    return picked
+
+
+def _check_corrupted(picked, verdicts):
     byid = {v["id"]: v for v in verdicts}
     for bad, clause in picked:
         v = byid.get(bad["id"])
@@ -519,16 +527,18 @@ def _classify(recs, verdicts, out, counts):
         for f in v.get("fs", []):
             out.fail(signature(rec, f),
                      {"case": {"part": rec["part"], **rec["c"]}, "recorded": rec["o"], "clause": f})
-        if v.get("fs"):
+        # the A-layer of C19_PolyRing predicts data tuples, not hashability: only clauses
+        # about the polynomial data count for the prediction bookkeeping
+        if any(f["cl"] != "evaluate-default-raises" for f in v.get("fs", [])):
             counts["failed_ids"].add(v["id"])
 
 
 def run(tier, seed, out):
     wd = kit.fresh_workdir("C19")
-    t0 = time.time()
-    controls = _model_runs(out)
-    kit.log(f"C19: S-layer model clean, {len(controls)} negative controls violated as required "
-            f"({time.time() - t0:.1f}s)")
+    # the S-layer model and its negative controls run beside the generator (the machine-wide
+    # TLC slots may make any of them wait)
+    bg = cf.ThreadPoolExecutor(max_workers=1)
+    f_controls = bg.submit(_model_runs, out)
     gen = kit.run_tlc("C19_Gen", f"C19_Gen_{tier}", heap="3g" if tier == "quick" else "6g")
     kit.require_clean(gen, "C19 model check (A-layer algorithms refine the meaning or fall in a named deviation)")
     out.add_tlc(gen)
@@ -545,25 +555,38 @@ def run(tier, seed, out):
     for i, c in enumerate(cases):
         c["id"] = i
     kit.log(f"C19: TLC generated {len(cases)} cases ({exhaustive_n} exhaustive; {gen.distinct} states, "
-            f"{gen.wall:.1f}s); negative controls ok: {sorted(controls)}")
+            f"{gen.wall:.1f}s)")
     predicted = {c["id"]: c["ac"] for c in cases if c.get("ac")}
     t0 = time.time()
+    # spread the expensive cases (long FFTs, looping polynomial Euclid) over all workers
+    random.Random(0).shuffle(cases)
     recs = kit.drive("harness.c19", "drive_case", cases, None, chunk=100)
+    recs.sort(key=lambda r: r["id"])
+    controls = f_controls.result()
+    bg.shutdown()
+    kit.log(f"C19: S-layer model clean, negative controls violated as required: {sorted(controls)}")
     out.evaluations += sum(r.pop("ne") for r in recs)
     kit.log(f"C19: drove {len(recs)} cases, {out.evaluations} calls into pymbolic ({time.time() - t0:.1f}s)")
     t0 = time.time()
-    verdicts, st, tr = _judge(recs, wd)
-    kit.log(f"C19: TLC judged {len(recs)} records, {len(verdicts)} not plainly OK ({time.time() - t0:.1f}s)")
+    # trace-corruption control: a few recorded observations with one field flipped are judged
+    # along with the real ones; TLC must reject each of them with the expected clause
+    corrupted = _corrupted_records(recs, len(recs))
+    verdicts, st, tr = _judge(recs + [b for b, _ in corrupted], wd, quick=(tier == "quick"))
+    corr = _check_corrupted(corrupted, verdicts)
+    verdicts = [v for v in verdicts if v["id"] < len(recs)]
+    kit.log(f"C19: TLC judged {len(recs)} records, {len(verdicts)} not plainly OK; "
+            f"{len(corr)} corrupted records rejected as required ({time.time() - t0:.1f}s)")
     out.states += st
     out.transitions += tr
     out.traces += len(recs)
     counts = {"drift": {}, "failed_ids": set()}
     _classify(recs, verdicts, out, counts)
-    corr = _corruption_control(recs, wd)
     # A-layer predictions (named deviation classes) against what the real code showed
     failed = counts["failed_ids"]
     pred_failed = sum(1 for i in predicted if i in failed)
     pred_not_failed = sorted(i for i in predicted if i not in failed)
+    poly_ids = {r["id"] for r in recs if r["part"] == "poly"}
+    failed_not_pred = sorted(i for i in failed if i in poly_ids and i not in predicted)
     by_part = {}
     for r in recs:
         by_part[r["part"]] = by_part.get(r["part"], 0) + 1
@@ -590,6 +613,7 @@ def run(tier, seed, out):
             k: sum(1 for v in predicted.values() if v == k) for k in sorted(set(predicted.values()))},
         "predicted_and_observed_failing": pred_failed,
         "predicted_but_not_observed": len(pred_not_failed),
+        "polynomial_failures_not_predicted_by_model": len(failed_not_pred),
         "drift_notes": counts["drift"],
     })
     out.assumptions += [
